@@ -176,7 +176,9 @@ def run_case(case, col=None):
 
 OUTER = {'k': 'SEQUENCE', 'tags': [], 'comps': [{'name': 'id', 't': {'k': 'INTEGER', 'tags': []}, 'p': 'req'},
                                                 {'name': 'blob', 't': {'k': 'ANY', 'tags': []}, 'p': 'req'},
-                                                {'name': 'z', 't': {'k': 'INTEGER', 'tags': [['I', 'C', 9]]}, 'p': 'req'}]}
+                                                {'name': 'z', 't': {'k': 'INTEGER', 'tags': [['I', 'C', 9]]}, 'p': 'req'},
+                                                {'name': 'zs', 't': {'k': 'SEQUENCEOF', 'tags': [['I', 'C', 10]], 'of': {'k': 'INTEGER', 'tags': []}}, 'p': 'req'}]}
+OT_STATS = {'tried': 0, 'dead': 0}
 
 
 def run_opentype(case, col=None):
@@ -186,16 +188,18 @@ def run_opentype(case, col=None):
     fails = []
     sch, _inner = c18.make_schema({'gov_kind': 'INTEGER', 'map': [[1, T]], 'container': 'SEQUENCE', 'field': 'any'})
     inner_e, rws = rewrites(T, v)
-    e = x690.der(OUTER, {'id': 1, 'blob': inner_e, 'z': 7})
+    e = x690.der(OUTER, {'id': 1, 'blob': inner_e, 'z': 7, 'zs': [1, 2]})
     d0 = lib.decode('DER', e, sch, decodeOpenTypes=True)
+    OT_STATS['tried'] += 1
     if not (d0.ok and d0.rest == b'' and not isinstance(d0.value['blob'], build.univ.Any)):
+        OT_STATS['dead'] += 1
         if col is not None:
             col.exclude('control arm: der.decode of the canonical open type container fails (C18)')
         return fails
     for idx, (kind, where, node, inner2) in enumerate(rws):
         if case.get('only') is not None and case['only'] != idx:
             continue
-        e2 = x690.der(OUTER, {'id': 1, 'blob': inner2, 'z': 7})
+        e2 = x690.der(OUTER, {'id': 1, 'blob': inner2, 'z': 7, 'zs': [1, 2]})
         b = lib.decode('BER', e2, sch, decodeOpenTypes=True)
         if not (b.ok and b.rest == b''):
             if col is not None:
@@ -231,6 +235,9 @@ def run_shard(desc, seed, tier, col):
                 col.fail(f['sub'], f['kind'], f['msg'], dict(case, only=f['obs']['rewrite'], opentype=True), sig=f['sig'], obs=f.get('obs'))
 
     harness.run_given(gen.type_and_value(CFG), body, seed, desc['examples'], col)
+    if OT_STATS['tried'] >= 20 and OT_STATS['dead'] * 2 > OT_STATS['tried']:
+        # (an arm whose control fails for most inputs tests nothing: say so instead of counting exclusions)
+        raise harness.HarnessError('open type arm: the canonical container was not decoded in %d of %d cases' % (OT_STATS['dead'], OT_STATS['tried']))
 
 
 FINDINGS = {}
